@@ -10,6 +10,7 @@ const DRIFT_LIMIT : usize = 1024 ;
 
 
 
+
 spec fn probe_at(p0: int, s: int, j: int, size: int) -> int { (p0 + j * s) % size }
 pub uninterp spec fn hash_spec<T>(item: T) -> u64;
 spec fn eq_law<T: Eq>() -> bool { <T as PartialEqSpec>::obeys_eq_spec() && forall|a: T, b: T| #[trigger] a.eq_spec(&b) == (a == b) }
@@ -126,6 +127,7 @@ lg_length : u8 , load_threshold : usize , keys : Vec < Option < T >> , values : 
 
 
 
+
 impl<T> ReversePurgeItemHashMap<T> {
     spec fn shape(&self) -> bool { fshape(self.keys@, self.values@, self.states@, self.lg_length) }
     spec fn wf(&self) -> bool {
@@ -202,8 +204,10 @@ self . keys . len ( ) }
 
 
 
+
     fn lg_length ( & self ) -> ( r : u8 ) ensures r == self . lg_length {
 self . lg_length }
+
 
 
 
@@ -212,8 +216,10 @@ self . load_threshold }
 
 
 
+
     fn num_active ( & self ) -> ( r : usize ) ensures r == self . num_active {
 self . num_active }
+
 
 
 }
@@ -222,6 +228,7 @@ self . num_active }
 #[verifier::reject_recursive_types(T)]
 struct ReversePurgeItemIter < 'a , T > {
 map : & 'a ReversePurgeItemHashMap < T > , index : usize , count : usize , stride : usize , mask : usize , }
+
 
 
 
@@ -274,13 +281,17 @@ spec fn cap_of(lg: u8) -> nat { pow2(lg as nat) * 3 / 4 }
 const LG_MIN_MAP_SIZE : u8 = 3 ;
 
 
+
 const SAMPLE_SIZE : usize = 1024 ;
+
 
 
 const LOAD_FACTOR_NUMERATOR : usize = 3 ;
 
 
+
 const LOAD_FACTOR_DENOMINATOR : usize = 4 ;
+
 
 
 
@@ -289,10 +300,35 @@ NoFalseNegatives , NoFalsePositives , }
 
 
 
+
 struct Row < T > {
 item : T , estimate : u64 , upper_bound : u64 , lower_bound : u64 , }
 
 
+
+
+// result row accessors: each returns its field (C07: what frequent_items reports is what the caller reads)
+impl<T> Row<T> {
+    fn item ( & self ) -> ( r : & T ) ensures
+/*@C07.row_item*/ * r == self . item {
+& self . item }
+
+
+    fn estimate ( & self ) -> ( r : u64 ) ensures
+/*@C07.row_estimate*/ r == self . estimate {
+self . estimate }
+
+
+    fn upper_bound ( & self ) -> ( r : u64 ) ensures
+/*@C07.row_upper_bound*/ r == self . upper_bound {
+self . upper_bound }
+
+
+    fn lower_bound ( & self ) -> ( r : u64 ) ensures
+/*@C07.row_lower_bound*/ r == self . lower_bound {
+self . lower_bound }
+
+}
 
 // R15: `rows.sort_by_key(|row| std::cmp::Reverse(row.estimate))` -- std sort leaf: a permutation, descending by estimate
 #[verifier::external_body]
@@ -304,6 +340,7 @@ fn vx_sort_rows_desc<T>(rows: &mut Vec<Row<T>>)
 #[verifier::reject_recursive_types(T)]
 struct FrequentItemsSketch < T > {
 lg_max_map_size : u8 , cur_map_cap : usize , offset : u64 , stream_weight : u64 , sample_size : usize , hash_map : ReversePurgeItemHashMap < T > , }
+
 
 
 
@@ -357,6 +394,7 @@ lg_max_map_size : lg_max , cur_map_cap , offset : 0 , stream_weight : 0 , sample
 
 
 
+
     fn new ( max_map_size : usize ) -> ( r : Self ) requires eq_law :: < T > ( ) , exists | lg : u8 | lg <= 40 && max_map_size == pow2 ( lg as nat ) , ensures r . wf ( ) , max_map_size == pow2 ( r . lg_max_map_size as nat ) || r . lg_max_map_size == LG_MIN_MAP_SIZE ,
 /*@C07.empty_model*/ r . models ( Seq :: < ( T , u64 ) > :: empty ( ) ) , {
 let ghost lg = choose | lg : u8 | lg <= 40 && max_map_size == pow2 ( lg as nat ) ;
@@ -365,16 +403,20 @@ let lg_max_map_size = max_map_size . trailing_zeros ( ) as u8 ;
 Self :: with_lg_map_sizes ( lg_max_map_size , LG_MIN_MAP_SIZE ) }
 
 
+
     fn current_map_capacity ( & self ) -> ( r : usize ) ensures r == self . cur_map_cap , {
 self . cur_map_cap }
+
 
 
     fn lg_max_map_size ( & self ) -> ( r : u8 ) ensures r == self . lg_max_map_size , {
 self . lg_max_map_size }
 
 
+
     fn lg_cur_map_size ( & self ) -> ( r : u8 ) ensures r == self . hash_map . lg_length , {
 self . hash_map . lg_length ( ) }
+
 
 
     fn update ( & mut self , item : T ) requires old ( self ) . wf ( ) , old ( self ) . stream_weight + 1 <= u64 :: MAX , ensures final ( self ) . wf ( ) ,
@@ -385,11 +427,13 @@ self . update_with_count ( item , 1 ) ;
 }
 
 
+
     fn reset ( & mut self ) requires old ( self ) . wf ( ) , ensures final ( self ) . wf ( ) , final ( self ) . lg_max_map_size == old ( self ) . lg_max_map_size ,
 /*@C07.empty_model*/ final ( self ) . models ( Seq :: < ( T , u64 ) > :: empty ( ) ) ,
 /*@C18.fi_capacity*/ final ( self ) . hash_map . num_active <= cap_of ( final ( self ) . lg_max_map_size ) , {
 * self = Self :: with_lg_map_sizes ( self . lg_max_map_size , LG_MIN_MAP_SIZE ) ;
 }
+
 
 
     fn frequent_items ( & self , error_type : ErrorType ) -> ( rows : Vec < Row < T >> ) where T : Clone , requires self . wf ( ) , ensures
@@ -403,17 +447,21 @@ assert ( self . thr ( self . offset ) == self . offset ) ;
 self . frequent_items_with_threshold ( error_type , self . offset ) }
 
 
+
     fn is_empty ( & self ) -> ( r : bool ) ensures r == ( self . hash_map . num_active == 0 ) , {
 self . hash_map . num_active ( ) == 0 }
+
 
 
     fn num_active_items ( & self ) -> ( r : usize ) ensures r == self . hash_map . num_active , {
 self . hash_map . num_active ( ) }
 
 
+
     fn total_weight ( & self ) -> ( r : u64 ) ensures
 /*@C07.total_weight*/ forall | h : Seq < ( T , u64 ) > | # [ trigger ] self . models ( h ) ==> r == total ( h ) , {
 self . stream_weight }
+
 
 
 
@@ -435,9 +483,11 @@ else {
 
 
 
+
     fn lower_bound ( & self , item : & T ) -> ( r : u64 ) requires self . wf ( ) , ensures
 /*@C07.lb*/ forall | h : Seq < ( T , u64 ) > | # [ trigger ] self . models ( h ) ==> r <= truth ( h , * item ) , r == self . lb_spec ( * item ) , {
 self . hash_map . get ( item ) }
+
 
 
 
@@ -450,9 +500,11 @@ self . hash_map . get ( item ) + self . offset }
 
 
 
+
     fn maximum_error ( & self ) -> ( r : u64 ) ensures
 /*@C07.width*/ forall | x : T | # [ trigger ] self . ub_spec ( x ) - self . lb_spec ( x ) == r , {
 self . offset }
+
 
 
 
@@ -461,6 +513,7 @@ proof {
 lemma_shl ( self . lg_max_map_size ) ;
 }
 ( 1usize << self . lg_max_map_size ) * LOAD_FACTOR_NUMERATOR / LOAD_FACTOR_DENOMINATOR }
+
 
 
 
@@ -495,6 +548,7 @@ assert ( old ( self ) . lb_spec ( x ) <= truth ( h , x ) <= old ( self ) . ub_sp
 }
 self . maybe_resize_or_purge ( ) ;
 }
+
 
 
 
@@ -578,6 +632,7 @@ assert ( other . lb_spec ( x ) <= truth ( h2 , x ) <= other . ub_spec ( x ) ) ;
 }
 }
 }
+
 
 
 
@@ -684,6 +739,7 @@ rows }
 
 
 
+
     fn maybe_resize_or_purge ( & mut self ) requires old ( self ) . wf_but ( 1 ) , ensures final ( self ) . wf ( ) , final ( self ) . stream_weight == old ( self ) . stream_weight , final ( self ) . lg_max_map_size == old ( self ) . lg_max_map_size ,
 /*@C18.fi_capacity*/ final ( self ) . hash_map . num_active <= cap_of ( final ( self ) . lg_max_map_size ) ,
 /*@C07.purge_keeps_bracket*/ forall | h : Seq < ( T , u64 ) > | # [ trigger ] old ( self ) . models ( h ) ==> final ( self ) . models ( h ) , {
@@ -720,6 +776,7 @@ lemma_cap_mono ( self . hash_map . lg_length , self . lg_max_map_size ) ;
 }
 }
 }
+
 
 
 }
